@@ -249,6 +249,11 @@ def bloom_guard_prefix(prog, rep, rid, ctx, fname):
             leaves = [n for n in walk(a) if n[0] in ("f", "p", "sub", "ret", "call", "it", "ix")]
             if all(n[0] == "hv" or n[0] == "c" or n[0] in ("cmp", "un", "nary", "bin", "and", "or") for n in walk(a)) and not leaves:
                 continue
+            # a count taken over the cells themselves - sum(1 for ... in zip(self cells, second cells) if ...) - is a function of the cells alone
+            flds = [n for n in walk(a) if n[0] == "f"]
+            if flds and all(n[2] in ("_bloom", "_bloom_length") and n[1] in (SELF, SECOND) for n in flds) and not any(n[0] == "ret" for n in walk(a)) \
+                    and all(n == SECOND for n in walk(a) if n[0] == "p") and any(n[0] == "call" and n[1] == ("g", "sum") for n in walk(a)):
+                continue
             rep.bad(rid, where, f"extra decision {nshow(a)}",
                     f"after the compatibility tests {fname} also branches on {nshow(a)}: the result no longer depends on the cells alone "
                     "(e.g. a shortcut trusting a counter)", f.where(c.node))
@@ -352,6 +357,102 @@ def _built_in_one(prog, rep, rid, ctx, f, ps, where, root, op) -> bool:
         if result_from_receiver(rep, rid, where, ps, root):
             rep.ok(rid, f"{where}: result array built in one expression, self cell {op} second cell over all cells, result from receiver's parameters")
     return judged
+
+
+
+def zipped_cells(prog, ctx, gen):
+    """gen = ("gen", lid, dom, filters) of a comprehension: when dom is zip(<all cells of self>, <all cells of second>) (possibly
+    materialised by list() / tuple()), returns (lid, a, b) with a, b the two cells in position form; None otherwise"""
+    from ..common import typed_fields
+    lid, dom = gen[1], strip_epochs(gen[2])
+    while dom[0] == "call" and dom[1] in (("g", "list"), ("g", "tuple")) and len(dom[2]) == 1:
+        dom = dom[2][0]
+    views = list(dom[2]) if dom[0] == "call" and dom[1] == ("g", "zip") and len(dom[2]) == 2 else []
+
+    def whole(view, rootsym):
+        base = ("f", rootsym, "_bloom", 0)
+        if view == base:
+            return "mmap" not in typed_fields(prog, ctx).get("_bloom", set()) or rootsym != SELF
+        if view[0] == "slice" and view[1] == base and view[2] in (C(None), C(0)) and view[4] in (C(None), C(1)):
+            return view[3] in (("f", rootsym, "_bloom_length", 0),)
+        return False
+    if len(views) != 2:
+        return None
+    if whole(views[0], SELF) and whole(views[1], SECOND):
+        pass
+    elif whole(views[1], SELF) and whole(views[0], SECOND):
+        pass
+    else:
+        return None
+    a = ("sub", ("f", SELF, "_bloom", 0), ("pos", lid), 0)
+    b = ("sub", ("f", SECOND, "_bloom", 0), ("pos", lid), 0)
+    return lid, a, b
+
+
+def _truth_table(cond, a, b, want) -> bool:
+    """cond, a function of the two unsigned cells a and b, has the truth `want(a_nonzero, b_nonzero)` for every pair of sample values
+    (0, small values whose bits differ, and the cell limit): decided by substituting the samples and folding"""
+    import operator as _op
+    BIN = {"+": _op.add, "-": _op.sub, "*": _op.mul, "&": _op.and_, "|": _op.or_, "^": _op.xor, "//": _op.floordiv, "%": _op.mod}
+    CMP = {"==": _op.eq, "!=": _op.ne, "<": _op.lt, "<=": _op.le, ">": _op.gt, ">=": _op.ge}
+
+    class _No(Exception):
+        pass
+
+    def ev(e, x, y):
+        if e == a:
+            return x
+        if e == b:
+            return y
+        k = e[0]
+        if k == "c" and isinstance(e[1], (int, bool)):
+            return e[1]
+        if k == "and":
+            r = True
+            for t in e[1]:
+                r = ev(t, x, y)
+                if not r:
+                    return r
+            return r
+        if k == "or":
+            r = False
+            for t in e[1]:
+                r = ev(t, x, y)
+                if r:
+                    return r
+            return r
+        if k == "un" and e[1] == "not":
+            return not ev(e[2], x, y)
+        if k == "cmp" and e[1] in CMP:
+            return CMP[e[1]](ev(e[2], x, y), ev(e[3], x, y))
+        if k == "bin" and e[1] in BIN:
+            return BIN[e[1]](ev(e[2], x, y), ev(e[3], x, y))
+        if k == "nary" and e[1] in BIN:
+            vals = [ev(t, x, y) for t in e[2]]
+            r = vals[0]
+            for v_ in vals[1:]:
+                r = BIN[e[1]](r, v_)
+            return r
+        if k == "call" and e[1] in (("g", "min"), ("g", "max"), ("g", "bool")) and e[2] and not e[3]:
+            vals = [ev(t, x, y) for t in e[2]]
+            return {"min": min, "max": max, "bool": lambda *v: bool(v[0])}[e[1][1]](*vals)
+        if k == "phi":
+            return ev(e[2], x, y) if ev(e[1], x, y) else ev(e[3], x, y)
+        raise _No()
+    samples = (0, 1, 2, 3, 2**32 - 1)
+    try:
+        return all(bool(ev(cond, x, y)) == want(x != 0, y != 0) for x in samples for y in samples)
+    except (_No, ZeroDivisionError, TypeError):
+        return False
+
+
+def both_nonzero(cond, a, b) -> bool:
+    """cond (position form) holds exactly when both cells are non-zero"""
+    return _truth_table(cond, a, b, lambda p, q: p and q)
+
+
+def either_nonzero(cond, a, b) -> bool:
+    return _truth_table(cond, a, b, lambda p, q: p or q)
 
 
 def combine_rule(prog, rep, rid, ctx, fname, op):
